@@ -1484,6 +1484,7 @@ FILE *fopen(const char *path, const char *mode) {
     Fault f;
     bool hit = fault_hit("fopen", f);
     if (hit && f.kind == "errno") { errno = (int)f.arg; G->trace(C_FOPEN, -errno); return nullptr; }
+    if (K->on_lib_fopen && lib_ctx()) K->on_lib_fopen(path);
     std::string rp;
     if (!K->resolve(path, true, rp)) { errno = ENOENT; G->trace(C_FOPEN, -ENOENT); return nullptr; }
     FsNode &n = K->fs[rp];
